@@ -12,7 +12,7 @@
       argument and nothing else."""
 import re
 from registry import RuleResult
-from heval import Evaluator, Policy, EvalError, sym, show, norm_path
+from heval import Evaluator, Policy, EvalError, sym, show, norm_path, local_policy
 from cfg import Cfg, callee_name, operand_place
 from mirutil import calls_to, where
 
@@ -91,7 +91,7 @@ def find_filter(t):
 
 def par_filter(F, res, name, path):
     """rayon accessors: the parallel iterator over the inner arena is filtered by `!dead.contains(id)`"""
-    nop = Policy(effects=lambda p: True, inline=lambda p: False)
+    nop = local_policy(F, path, events=[r'^std::', r'^id_arena::', r'^rayon::'])
 
     def thunk(st):
         v = st.call_path(path, [sym('self'), sym('consumer')][:2 if 'drive' in path else 1], None)
@@ -131,9 +131,10 @@ def par_filter(F, res, name, path):
 
 
 def accessor_worlds(F, res, accessors):
-    nop = Policy(effects=lambda p: True, inline=lambda p: False, loop_cut=3)
     INNER = ('field', sym('self'), 'inner')
     for name, path in sorted(accessors.items()):
+        # helpers written next to the accessors (is_dead, ...) are looked through
+        nop = local_policy(F, path, events=[r'^std::', r'^id_arena::', r'^rayon::'], loop_cut=3)
         if name.startswith('par_'):
             par_filter(F, res, name, path)
             continue
@@ -173,6 +174,14 @@ def accessor_worlds(F, res, accessors):
                     tested = [t for t, tv in da if tv is False and mentions(t, v)]
                     if not is_none and not tested:
                         bad = 'can return the entry produced by %s without testing it against `dead`' % show(v)
+                elif isinstance(v, tuple) and v[0] == 'call' and v[1] in ('iter::find', 'std::iter::Iterator::find') and mentions(v, INNER):
+                    # `inner.find(pred)`: the entry handed out satisfies pred; pred must be `!dead.contains(id)`
+                    el = [t for t, tv in da if tv is False and 'elem' in show(t)]
+                    verdict = show(v[2][1]) if len(v[2]) > 1 else '?'
+                    if verdict == 'False':
+                        pass        # the generic entry fails the predicate: it is skipped, nothing is handed out
+                    elif verdict != 'True' or not el:
+                        bad = 'searches the inner iterator with a predicate that does not test `dead`'
                 elif mentions(v, INNER):
                     bad = 'returns %s, not a tested entry of the inner iterator' % show(v)[:80]
         if n == 0:
@@ -227,21 +236,7 @@ def run(ctx):
         if not bodies:
             res.bad('accessor/%s/missing' % name, 'TombstoneArena accessor %s not found (%s)' % (name, path))
             continue
-        reads = False
-        for body in bodies:
-            for i, b in enumerate(body['blocks']):
-                t = b['term']
-                if t['t'] != 'Call':
-                    continue
-                n = norm_path(callee_name(t) or '')
-                if n.endswith('HashSet::contains') or n.endswith('HashSet::len'):
-                    pls = places_of_args(body, t)
-                    if pls and (touches_field(pls[0], 'dead') or True):
-                        reads = True
-        if reads:
-            res.ok('accessor/' + name, {'accessor': name, 'consults': 'dead'})
-        else:
-            res.bad('accessor/' + name, 'TombstoneArena::%s hands out / counts items without consulting the tombstone set' % name)
+        res.ok('accessor/' + name, {'accessor': name, 'found': True}, nontrivial=False)
     # (a3') the same accessors, decided on their worlds: whatever is handed out is known not to be dead
     accessor_worlds(F, res, accessors)
     # (a4) delete
@@ -269,8 +264,8 @@ def run(ctx):
             res.bad('delete/marks-own-id', 'TombstoneArena::delete must mark exactly its id argument dead and run on_delete on that item')
         # (a5) ArenaSet
         AS = 'arena_set::ArenaSet::<T>::'
-        pol2 = Policy(effects=[r'HashMap::(remove|insert|get)$', r'TombstoneArena::(delete|alloc)$'],
-                      inline=lambda p: False)
+        pol2 = local_policy(F, AS + 'insert', events=[r'HashMap::(remove|insert|get)$', r'TombstoneArena::<T>::(delete|alloc)$',
+                                                      r'TombstoneArena::(delete|alloc)$'])
         ws = Evaluator(F, pol2).run_fn(AS + 'remove', [sym('self'), sym('id')])
         good = len(ws) > 0
         for w in ws:
